@@ -24,6 +24,7 @@ import base64
 import binascii
 import re
 import io
+import logging
 import struct
 import sys
 from typing import AbstractSet, BinaryIO, NamedTuple
@@ -200,15 +201,19 @@ class PlayReady(DrmBase):
             default_keypair.KID.raw, raw=True)
         if custom_attributes is None:
             custom_attributes = []
+        try:
+            la_url = la_url.format(cfgs=cfgs,
+                                   default_kid=default_keypair.KID.hex,
+                                   kids=[a["kid"] for a in kids])
+        except (KeyError, IndexError, ValueError, AttributeError) as err:
+            # braces that are not one of the supported fields: use the URL as it is
+            logging.warning('LA_URL "%s" is not a valid template: %s', la_url, err)
         context = {
             "customAttributes": custom_attributes,
             "default_kid": default_kid,
             "default_key": default_key,
             "kids": kids,
-            "la_url": la_url.format(cfgs=cfgs,
-                                    default_kid=default_keypair.KID.hex,
-                                    kids=[a["kid"] for a in kids]
-                                    )
+            "la_url": la_url,
         }
         context["checksum"] = self.generate_checksum(default_keypair)
         header_version = self.header_version
